@@ -495,7 +495,7 @@ impl<'a> Ev<'a> {
             let empty = matches!(&*arm.body, Expr::Block(b) if b.block.stmts.is_empty()) || matches!(&*arm.body, Expr::Tuple(t) if t.elems.is_empty());
             arms_fact.push(json!({
                 "pat":tok(&arm.pat),"variants":vs,"guard":g,"bindings":used,"empty":empty,"line":line_of(arm),
-                "body": if body_text.len() > 300 { format!("{}…", &body_text.chars().take(300).collect::<String>()) } else { body_text },
+                "body": if body_text.len() > 3000 { format!("{}…", &body_text.chars().take(3000).collect::<String>()) } else { body_text },
                 "calls": body_calls, "nsites": self.sites.len() - sites_before,
                 "diverges": diverges_expr(&arm.body), "value": if size(&v) > 300 { json!({"k":"big"}) } else { v.clone() },
             }));
